@@ -150,6 +150,10 @@ class C10(Prop):
         # (`C02S_no_deadlock`, `C02S_mutual_exclusion`, `C02S_ranked`)
         from .. import coopgen as cg
         out += cg.cases(tier, seed)
+        # … and over the synchronous thread-safe combinators (merge / zip / combine_latest / with_latest_from /
+        # take_until / skip_until / sample / buffer, under and above take / map / finalize_threads): two emitters,
+        # emitter vs unsubscribe(), terminal vs item / terminal / unsubscribe(), every preemption point
+        out += cg.sync_cases(tier, seed)
         return out
 
     def compare_from(self, case):
@@ -167,6 +171,8 @@ class C10(Prop):
             return ig.oracle(case, lines)
         if case.suite == "coop":
             from .. import coopgen as cg
+            if case.meta.get("kind") == "coop-sync" or not cg.has_time_op(case):
+                return cg.sync_oracle(case, lines)
             return cg.oracle(case, lines, quiet=False)
         if case.suite == "time":
             # cancellation is serialised with delivery: the poll of one task runs inside its handle's section
